@@ -110,13 +110,15 @@ def const_state_of_other(pa, fn, b, recv):
     if best is None or best[1] is None:
         return None
     d, S = best
-    # no other write on recv between d and b
-    fwd = fn.reach_from([fn.blocks[d]["t"][4]]) if fn.blocks[d]["t"][4] is not None else set()
+    # no other write on recv on a path d -> b that does not pass d again (the relevant execution of
+    # the dominating write is the last one before b; an earlier loop iteration is another task)
+    nxt = fn.blocks[d]["t"][4]
+    fwd = fn.reach_from([nxt], avoid=[d]) if nxt is not None else set()
     for x in fwd:
-        if x == b or not fn.can_reach(x, b):
+        if x == b or x == d or not (b in fn.reach_from([x], avoid=[d])):
             continue
         t = fn.blocks[x]["t"]
-        if x != d and t[0] == "call" and t[1].get("q") in (Q_SET_STATE, Q_SET_ERR) and pa.root(fn, t[2][0]) == recv:
+        if t[0] == "call" and t[1].get("q") in (Q_SET_STATE, Q_SET_ERR) and pa.root(fn, t[2][0]) == recv:
             return None
     return S
 
